@@ -312,7 +312,7 @@ var stringFieldNames = map[string]bool{"obj_user": true, "obj_role": true, "obj_
 
 // c06Monitor compares the wire bytes with the generator's intent.
 func c06Monitor(c RCaseR, o rObs) string {
-	if c.Kind != "line" || o.NoTok || c.Occs == nil || c.Note == "perturbed" {
+	if c.Kind != "line" || o.NoTok || c.Occs == nil || c.Note == "perturbed" || o.Panic != "" {
 		return ""
 	}
 	if c.Valid && o.PErr != nil {
@@ -503,7 +503,7 @@ func permWord(s string) uint32 {
 
 // c07Monitor: the listed text re-encodes to byte-identical wire data and is stable.
 func c07Monitor(c RCaseR, o rObs) (string, string) {
-	if c.Kind != "line" || o.NoTok || o.PErr != nil || o.BErr != nil {
+	if c.Kind != "line" || o.NoTok || o.PErr != nil || o.BErr != nil || o.Panic != "" {
 		return "", ""
 	}
 	// domain: string values without whitespace or quote characters
@@ -576,7 +576,7 @@ func c13Monitor(c RCaseR, o rObs) string {
 
 // c14Monitor: the returned rule reflects every flag occurrence in full.
 func c14Monitor(c RCaseR, o rObs) string {
-	if c.Kind != "line" || o.NoTok || o.PErr != nil || c.Occs == nil {
+	if c.Kind != "line" || o.NoTok || o.PErr != nil || c.Occs == nil || o.Panic != "" {
 		return ""
 	}
 	var nF, nC int
@@ -1326,7 +1326,14 @@ func ruleFamily(ctx *Ctx) error {
 			res.Violate(v)
 		}
 		if cl := c13Monitor(c, o); cl != "" {
-			viol(cl, "")
+			if ctx.Prop == "C13" {
+				viol(cl, "")
+			} else if o.Panic != "" {
+				// a panic is C13's clause; under a sibling property it is a broken correspondence (the model returns a result)
+				res.Hist("sibling_clause_failed")
+				unlisted++
+				res.Violate(common.Violation{Kind: "correspondence", Clause: "the implementation panicked where the model returns a result (" + c.Kind + ")", Input: c, Impl: "panic", Note: "on this input a clause of a sibling property fails: " + cl, Case: idx})
+			}
 		}
 		switch ctx.Prop {
 		case "C06":
